@@ -157,7 +157,11 @@ CATALOGUE = [
     ("reindex_axis", "keeps", lambda c: [c.first], lambda c: c.a.reindex_axis([c.lab(0), c.lab(0, 1)], axis=0)),
     ("reindex_axis missing", "keeps", lambda c: [c.first], lambda c: c.a.reindex_axis(list(c.a.labels[0][:1]) + [99], axis=0)),
     ("reindex_axis method", "keeps", lambda c: [c.first], lambda c: c.a.reindex_axis([float(c.a.labels[0][0]) + 0.1], axis=0, method="left")),
-    ("reindex_axis Axis", "keeps", None, lambda c: c.a.reindex_axis(c.da.Axis(c.a.labels[0][::-1].copy(), c.first))),
+    ("reindex_axis Axis", "keeps", lambda c: [c.first], lambda c: c.a.reindex_axis(c.da.Axis(c.a.labels[0][::-1].copy(), c.first))),
+    ("reindex_axis Axis missing", "keeps", lambda c: [c.first],
+     lambda c: c.a.reindex_axis(c.da.Axis(np.concatenate([c.a.labels[0][:1], [c.a.labels[0].max() + 7]]), c.first))),
+    ("reindex_axis array missing", "keeps", lambda c: [c.first],
+     lambda c: c.a.reindex_axis(np.concatenate([[c.a.labels[0].min() - 3], c.a.labels[0][::-1]]), axis=c.first)),
     ("reindex_like", "keeps", None, lambda c: c.a.reindex_like(c.b)),
     ("sort_axis", "keeps", None, lambda c: c.a.sort_axis(c.axk())),
     ("sort_axis key", "keeps", None, lambda c: c.a.sort_axis(0, key=lambda x: -x)),
